@@ -244,7 +244,10 @@ fn parent_main(args: &Args) {
                             .map(|l| l.to_string())
                     })
                     .unwrap_or_default();
-                if prop == "C17" {
+                // exit code 101 is a Rust panic that unwound out of main: that can only be the
+                // harness's own code (every library call runs under catch_unwind) -> harness error
+                let harness_panic = status.code() == Some(101);
+                if prop == "C17" && !harness_panic {
                     let entry = serde_json::from_str::<Value>(&last)
                         .ok()
                         .and_then(|v| v["entry"].as_str().map(|s| s.to_string()))
